@@ -49,6 +49,7 @@ func checkC04(c *Ctx) {
 	r.Rule("R04.3", "no other blocking point: only lock.Lock and the receive on the found entry's channel; no call-out while lock is held", 2)
 	r.Rule("R04.4", "the spawned closure never touches the caller's key slice (keyed operations use a private copy made before the spawn)", 2)
 	r.Rule("R04.5", "builder and write in the spawned closure run under detachedContext{caller ctx}", 2)
+	r.Rule("R04.6", "the failure cache is bounded by FailedUpdateTTL (a later Get can build again) and never dereferenced when disabled", 4)
 	r.NotDecided = []string{"termination of user code", "scheduler fairness", "panicking builders"}
 	for _, sib := range siblings {
 		fo := c.failover(sib)
@@ -79,6 +80,15 @@ func checkC04(c *Ctx) {
 		}
 		c.c04Sibling(fo)
 	}
+	// R04.6: the failure cache cannot stop later Gets from building for longer than FailedUpdateTTL, and is never touched
+	// when disabled (Errors is nil then: a nil dereference instead of a result)
+	c.borrow("C05", func() {
+		for _, sib := range siblings {
+			if fo := c.failover(sib); fo.Err == nil {
+				c.c05Sibling(fo)
+			}
+		}
+	}, func(o *coreObl) (string, bool) { return "R04.6", o.Rule == "R05.5" || o.Rule == "R05.6" })
 }
 
 func (c *Ctx) c04Sibling(fo *FO) {
